@@ -827,6 +827,14 @@ class Engine:
             r = self.contains(b, a)
             if isinstance(op, ast.NotIn): r = z3.Not(r) if is_sym(r) else not r
             return r
+        if isinstance(op, (ast.Eq, ast.NotEq)) and type(a) is type(b) and isinstance(a, (tuple, list)) and any(isinstance(x, (Obj, Lazy, tuple, list)) or is_sym(x) for x in list(a) + list(b)):
+            # sequences compare elementwise with the elements' own == (objects may define __eq__, values may be symbolic)
+            if len(a) != len(b): r = False
+            else:
+                parts = [self.compare(ast.Eq(), x, y) for x, y in zip(a, b)]
+                r = False if any(p is False for p in parts) else (z3.And([p for p in parts if is_sym(p)]) if any(is_sym(p) for p in parts) else True)
+            if isinstance(op, ast.NotEq): return z3.Not(r) if is_sym(r) else not r
+            return r
         if is_symstr(a) or is_symstr(b):
             if not ((isinstance(a, str) or is_symstr(a)) and (isinstance(b, str) or is_symstr(b))):
                 if isinstance(op, ast.Eq): return False
@@ -840,8 +848,15 @@ class Engine:
             if isinstance(op, ast.GtE): return z3.Or(za == zb, zb < za)
             if isinstance(op, ast.Gt): return zb < za
         if isinstance(a, (Lazy, Obj, Opaque)) or isinstance(b, (Lazy, Obj, Opaque)):
-            if isinstance(op, ast.Eq): return a is b
-            if isinstance(op, ast.NotEq): return a is not b
+            if isinstance(op, (ast.Eq, ast.NotEq)):
+                # a user-defined __eq__ (the token classes compare structurally) decides; identity otherwise (object.__eq__)
+                for x, y in ((a, b), (b, a)):
+                    if isinstance(x, Obj) and isinstance(x.cls, ClassV) and x.cls.lookup("__eq__") is not None:
+                        r = self.call(Bound(x, x.cls.lookup("__eq__")), [y], {})
+                        if r is NotImplemented: continue
+                        if isinstance(op, ast.NotEq): return z3.Not(r) if is_sym(r) else not self.truth(r)
+                        return r
+                return (a is b) if isinstance(op, ast.Eq) else (a is not b)
             raise PyRaise(Exc("TypeError"))
         if isinstance(op, ast.Eq): return a == b
         if isinstance(op, ast.NotEq): return a != b
@@ -1271,8 +1286,10 @@ class Engine:
         # the abstraction evaluates the body now; the real body may run later: what it reads from enclosing scopes must not change
         self.path.captures.append((getattr(fn, "qualname", "?"), getattr(getattr(fn, "node", None), "lineno", 0), self.free_captures(fn)))
         self.path.n_deferred = getattr(self.path, "n_deferred", 0) + 1
-        value = self.call(fn, [], {})
         typ = getattr(typ, "pytype", typ)
+        if not isinstance(typ, (type, ClassV)):
+            raise PyRaise(Exc("TypeError"))        # BaseDeferredMetaclass.__getitem__: 'must be passed a type in brackets'
+        value = self.call(fn, [], {})
         tname = "int" if typ is int else "bytes" if typ is bytes else "obj"
         if size is not None:
             self.path.notes.append(("sized", size, value))
